@@ -12,6 +12,17 @@ list and executes the real code:
     cell's private copy; the number of histograms is the minimum number of results over the cells;
     context.variable carries every attribute of the argument variable; nothing of a value outside
     the edges or of a cell's private context may leak into the histogram's context.
+    The contexts the values carry include a context.variable left by an earlier variable in every
+    relation to the argument variable (another type, the SAME type, an earlier composition that holds a
+    sub-context of that type, no type): context.variable must still carry every attribute of the
+    argument variable.
+  * law "template" (judged by the same oracle): the analysis object handed to SplitIntoBins belongs to
+    its owner, who may have filled values into it before (a copy of the sequence is a copy of it as it is
+    when SplitIntoBins gets it: every cell's independent analysis is pre-filled the same way) and goes on
+    filling values into it afterwards - at every subset of the points before each fill of SplitIntoBins
+    and before compute.  What happens to that object after construction is irrelevant to every cell
+    (the copies are private), and, differentially, SplitIntoBins is irrelevant to the object: in
+    the end it computes what a twin computes that got the same values and never met a SplitIntoBins.
   * law "iterate": IterateBins over such a histogram yields every cell exactly once, its data the cell's
     data, its context the cell's context plus context.bin.edges = that cell's edges and context.bins =
     the histogram's context.
@@ -40,13 +51,23 @@ RULE = ("every (edges, analysis, argument variable, context mode, flow of pool a
         "independently filled private copy of the analysis; a SplitIntoBins case is non-trivial when at "
         "least two cells receive values or values both inside and outside the edges occur; an "
         "IterateBins / MapBins case is non-trivial when the histogram has at least two cells with "
-        "different contents; cases are distinct by construction of the enumeration")
+        "different contents; a template-history case (the analysis object handed over already holds a "
+        "value and / or its owner fills values into it after construction, every subset of the points "
+        "before each fill and before compute) is non-trivial when at least one value is routed into a "
+        "cell; cases are distinct by construction of the enumeration")
 ASSUMPTIONS = [
     "edges are lists of numbers (1-d) or lists of such lists (2-d); arguments are small ints / dyadic "
     "floats (no NaN, no infinities); 2-d arguments are returned by the variable as a tuple or a list",
     "no two values of a flow share a context object (an in-place context mutation inside one cell "
     "would otherwise reach a value routed to another cell; the statement speaks of sub-flows of values)",
     "argument variables are Variable (untyped, typed with attributes) and Combine; Compose is not used",
+    "a context.variable the values bring along is one of 5 shapes (none, another type, the type "
+    "'coordinate' of the typed argument variables, a composition holding that type, untyped); of the "
+    "resulting context.variable only the attributes of the argument variable are demanded (what is kept "
+    "of the earlier variable, 'compose' included, belongs to C14)",
+    "template histories: the owner of the analysis object only FILLS it (values of the first cell, own "
+    "context objects); an analysis object that is edited in other ways, and edges or variable objects "
+    "edited after construction, are not explored",
     "the rest of the histogram context (beyond context.variable) is accepted when it is empty, equals "
     "the (pristine or analysis-mutated) context of any in-range value, or their intersection",
     "compute() is called once per SplitIntoBins object; repeated compute / reset histories belong to C09",
@@ -66,37 +87,81 @@ E5 = [[0, 1, 3, 7], [0, 1, 2]]
 
 
 def _plans(tier):
-    """(edges, [plan, ...], follow-up max length); a plan is (vars, modes, flow lengths).
+    """(edges, [plan, ...], follow-up max length); a plan is (vars, modes, flow lengths) or
+    (vars, modes, flow lengths, follow-up max length of this plan).
     Plans of one edges entry never overlap, so no case is enumerated twice."""
     all1, all2 = list(M.VARS[1]), list(M.VARS[2])
     modes = list(M.CTX_MODES)
+    vmodes = list(M.VAR_MODES)
     if tier == "thorough":
         return [
-            (E1, [(all1, modes, [0, 1, 2, 3, 4])], 3),
-            (E2, [(all1, modes, [0, 1, 2, 3]), (["shift"], ["ctx"], [4])], 2),
+            (E1, [(all1, modes, [0, 1, 2, 3, 4]), (all1, vmodes, [0, 1, 2, 3], 1)], 3),
+            (E2, [(all1, modes, [0, 1, 2, 3]), (["shift"], ["ctx"], [4]), (all1, vmodes, [0, 1, 2], 0)], 2),
             (E2F, [(all1, ["bare", "ctx"], [0, 1, 2, 3])], 1),
-            (E3, [(all2, modes, [0, 1, 2]), (all2, ["bare", "ctx"], [3])], 2),
-            (E4, [(all2, modes, [0, 1, 2]), (all2, ["bare", "ctx"], [3])], 2),
+            (E3, [(all2, modes, [0, 1, 2]), (all2, ["bare", "ctx"], [3]), (all2, vmodes, [0, 1, 2], 0)], 2),
+            (E4, [(all2, modes, [0, 1, 2]), (all2, ["bare", "ctx"], [3]), (all2, vmodes, [0, 1, 2], 0)], 2),
             (E5, [(["combine", "yx"], ["ctx"], [0, 1, 2])], 1),
         ]
     return [
-        (E1, [(all1, modes, [0, 1, 2, 3])], 2),
+        (E1, [(all1, modes, [0, 1, 2, 3]), (all1, vmodes, [0, 1, 2], 0)], 2),
         (E2, [(all1, ["bare", "ctx"], [0, 1, 2, 3]), (all1, ["varctx"], [0, 1, 2])], 1),
         (E3, [(all2, modes, [0, 1, 2]), (["xy"], ["ctx"], [3])], 1),
-        (E4, [(all2, modes, [0, 1, 2]), (["yx"], ["bare"], [3])], 1),
+        (E4, [(all2, modes, [0, 1, 2]), (["yx"], ["bare"], [3]), (all2, vmodes, [0, 1], 0)], 1),
     ]
+
+
+def _template_plans(tier):
+    """(edges, vars, modes, flow lengths) of the law "template": for every flow every history of the
+    template object - *pre* in TEMPLATE_PRE values filled into it before SplitIntoBins is constructed,
+    and one more value filled into it at every subset of the points "before the k-th fill of
+    SplitIntoBins" (k = 0..n-1) and "before compute" (k = n) - except the history in which nobody
+    touches it, which is the law "sib"."""
+    if tier == "thorough":
+        return [
+            (E1, list(M.VARS[1]), ["bare", "ctx"], [0, 1, 2, 3]),
+            (E2, ["shift"], ["bare", "ctx"], [0, 1, 2]),
+            (E3, list(M.VARS[2]), ["bare", "ctx"], [0, 1]),
+            (E4, ["yx"], ["bare", "ctx"], [0, 1, 2]),
+        ]
+    return [
+        (E1, ["shift"], ["bare", "ctx"], [0, 1, 2]),
+        (E4, ["yx"], ["bare", "ctx"], [0, 1]),
+    ]
+
+
+TEMPLATE_PRE = (0, 1)
+TWIN_MAX_LEN = 2
+
+
+def _histories(n):
+    """Every (pre, touch points) with somebody using the template object, simplest first."""
+    out = []
+    for pre in TEMPLATE_PRE:
+        for r in range(n + 2):
+            for touch in itertools.combinations(range(n + 1), r):
+                if pre or touch:
+                    out.append((pre, list(touch)))
+    out.sort(key=lambda h: (h[0] + len(h[1]), h[0], h[1]))
+    return out
 
 
 def describe(tier):
     parts = []
     for edges, plans, follow in _plans(tier):
-        for vs, ms, ls in plans:
+        for plan in plans:
+            vs, ms, ls = plan[:3]
+            fw = plan[3] if len(plan) > 3 else follow
             parts.append("edges %s: %d analyses x vars %s x contexts %s x all flows of length %s over "
-                         "%d pool arguments" % (edges, len(M.ANALYSES), "/".join(vs), "/".join(ms),
-                                                ",".join(map(str, ls)), len(M.arg_pool(edges))))
-        parts.append("IterateBins (4 configurations) and MapBins (%d sequences x drop_bins_context) "
-                     "on every histogram these yield for flows up to length %d"
-                     % (len(M.MAP_SEQS), follow))
+                         "%d pool arguments, IterateBins (4 configurations) and MapBins (%d sequences x "
+                         "drop_bins_context) on every histogram these yield for flows up to length %d"
+                         % (edges, len(M.ANALYSES), "/".join(vs), "/".join(ms),
+                            ",".join(map(str, ls)), len(M.arg_pool(edges)), len(M.MAP_SEQS), fw))
+    for edges, vs, ms, ls in _template_plans(tier):
+        parts.append("template histories on edges %s: %d analyses x vars %s x contexts %s x all flows of "
+                     "length %s x (0 or 1 value in the analysis object before construction) x (one more "
+                     "value filled into it at every subset of the points before each fill and before "
+                     "compute)" % (edges, len(M.ANALYSES), "/".join(vs), "/".join(ms),
+                                   ",".join(map(str, ls))))
     parts.append("plus hand-made histograms: 7 shapes x 7 cell kinds x 4 histogram contexts")
     return "; ".join(parts)
 
@@ -106,14 +171,23 @@ def shards(tier):
     for edges, plans, follow in _plans(tier):
         big = M.dim_of(edges) > 1 or tier == "thorough"
         for an in M.ANALYSES:
-            for k, (vs, ms, ls) in enumerate(plans):
-                if big:
+            for plan in plans:
+                vs, ms, ls = plan[:3]
+                fw = plan[3] if len(plan) > 3 else follow
+                if big and len(plan) == 3:
                     for v in vs:
                         out.append({"kind": "sib", "edges": edges, "an": an, "vars": [v],
-                                    "modes": ms, "lens": ls, "follow": follow})
+                                    "modes": ms, "lens": ls, "follow": fw})
                 else:
                     out.append({"kind": "sib", "edges": edges, "an": an, "vars": vs, "modes": ms,
-                                "lens": ls, "follow": follow})
+                                "lens": ls, "follow": fw})
+    tplans = [{"edges": e, "vars": vs, "modes": ms, "lens": ls} for e, vs, ms, ls in _template_plans(tier)]
+    for an in M.ANALYSES:
+        if tier == "thorough":
+            for part in tplans:
+                out.append({"kind": "template", "an": an, "parts": [part]})
+        else:
+            out.append({"kind": "template", "an": an, "parts": tplans})
     for s in range(len(HAND_SHAPES)):
         out.append({"kind": "hand", "shape": s})
     return out
@@ -141,20 +215,76 @@ def _execute_sib(case):
             list(_SIBLING[0].compute())
         except Exception:  # noqa
             pass
+    pre, touch = _history(case)
+    # the analysis object handed to SplitIntoBins, and what its owner does with it before and afterwards
+    template = M.build_template(case["an"], edges, case["var"], case["mode"], pre)
+    events = []
     try:
-        sib = lena.structures.SplitIntoBins(M.build_analysis(case["an"], d), var, edges)
-        for v in M.build_flow(case["flow"], case["var"], case["mode"]):
+        sib = lena.structures.SplitIntoBins(template, var, edges)
+        values = M.build_flow(case["flow"], case["var"], case["mode"])
+        for k, v in enumerate(values):
+            if k in touch:
+                _use(template, M.template_value(edges, case["var"], case["mode"], k), events, k)
             sib.fill(v)
+        if len(values) in touch:
+            _use(template, M.template_value(edges, case["var"], case["mode"], len(values)), events,
+                 len(values))
         for o in sib.compute():
             outs.append(o)
     except Exception as e:  # noqa: the type is the outcome
         term = type(e).__name__
     _VAR_AFTER[0] = (copy.deepcopy(var.var_context), var_snapshot)
+    _TEMPLATE_AFTER[0] = (template, events)
     return outs, term, var_snapshot
 
 
 _SIBLING = [None]
 _VAR_AFTER = [None]      # (var_context of the argument variable after the run, before the run)
+_TEMPLATE_AFTER = [None]     # (the analysis object that was handed to SplitIntoBins, its fill events)
+
+
+def _history(case):
+    tpl = case.get("template") or {}
+    return tpl.get("pre", 0), list(tpl.get("touch", []))
+
+
+def _use(analysis, value, events, k):
+    """The owner of the analysis object fills one more value into it at point k (a failure is an
+    observation that is compared with the twin's, never a verdict of its own)."""
+    try:
+        analysis.fill(value)
+        events.append((k, "filled"))
+    except Exception as e:  # noqa
+        events.append((k, type(e).__name__))
+
+
+def _computed(analysis):
+    results = []
+    try:
+        for r in analysis.compute():
+            results.append(r)
+    except Exception as e:  # noqa
+        return (freeze(results), type(e).__name__)
+    return (freeze(results), "end")
+
+
+def _template_problem(case):
+    """The analysis object handed to SplitIntoBins stays its owner's: SplitIntoBins works on private
+    copies, so afterwards the object computes what a twin computes that got the same values directly
+    and was never shown to a SplitIntoBins (differential). None or (observed, expected)."""
+    template, events = _TEMPLATE_AFTER[0]
+    pre = _history(case)[0]
+    edges = case["edges"]
+    twin = M.build_template(case["an"], edges, case["var"], case["mode"], pre)
+    twin_events = []
+    for k, _ in events:      # the points that were reached (SplitIntoBins may have raised before the rest)
+        _use(twin, M.template_value(edges, case["var"], case["mode"], k), twin_events, k)
+    got = (_computed(template), events)
+    want = (_computed(twin), twin_events)
+    if got != want:
+        return ({"computes": repr(got[0])[:300], "fills": events},
+                {"computes": repr(want[0])[:300], "fills": twin_events})
+    return None
 
 
 def _observed_cells(outs, edges, n):
@@ -179,7 +309,9 @@ def _explain(case, outs, n):
     # all cells share one analysis object: every cell shows what all in-range values produce
     inside = [p for p, a in enumerate(case["flow"]) if M.cell_of(a, edges) is not None]
     values = M.build_flow(case["flow"], case["var"], case["mode"])
-    shared, _ = M.private_copy_results(M.build_analysis(case["an"], d), [values[p] for p in inside])
+    pre = _history(case)[0]
+    shared, _ = M.private_copy_results(M.build_template(case["an"], edges, case["var"], case["mode"], pre),
+                                       [values[p] for p in inside])
     if len(shared) >= n and all(obs[j][k] == freeze(shared[j])
                                 for j in range(n) for k in range(len(cells))):
         return "cells-share-one-analysis"
@@ -187,7 +319,7 @@ def _explain(case, outs, n):
                      ("upper-edge-closed", dict(rule="upper-closed")),
                      ("outside-values-clipped-into-edge-cells", dict(rule="clip")),
                      ("last-edge-included", dict(rule="last-edge-included"))):
-        alt = M.reference_cells(edges, case["an"], case["var"], case["mode"], case["flow"], **kw)
+        alt = M.reference_cells(edges, case["an"], case["var"], case["mode"], case["flow"], pre=pre, **kw)
         if all(len(alt[idx][0]) >= n for idx in cells) and all(
                 obs[j][k] == freeze(alt[idx][0][j]) for j in range(n) for k, idx in enumerate(cells)):
             return name
@@ -241,8 +373,9 @@ def check_sib(res, case, ref=None):
     edges = case["edges"]
     d = M.dim_of(edges)
     cells = M.all_cells(edges)
+    pre, touch = _history(case)
     if ref is None:
-        ref = M.reference_cells(edges, case["an"], case["var"], case["mode"], case["flow"])
+        ref = M.reference_cells(edges, case["an"], case["var"], case["mode"], case["flow"], pre=pre)
     outs, term, var_snapshot = _execute_sib(case)
 
     n_exp = min(len(ref[idx][0]) for idx in cells)
@@ -252,6 +385,11 @@ def check_sib(res, case, ref=None):
     n_in = sum(len(ref[idx][2]) for idx in cells)
     nontrivial = len(filled) >= 2 or (n_in >= 1 and n_in < len(case["flow"]))
     base = {"dim": d, "family": M.FAMILY[case["an"]]}
+    if pre or touch:
+        # law "template": a cell is filled while the object it was copied from holds other values
+        nontrivial = n_in >= 1
+        base["template"] = "used-by-its-owner"
+        res.count("template_cases")
 
     def viol(law, kind, observed, expected, **more):
         cause = {"law": law, "kind": kind}
@@ -284,8 +422,8 @@ def check_sib(res, case, ref=None):
                 viol("sib-cells", "cell-differs-from-private-copy",
                      {"histogram": j, "cell": list(idx), "content": repr(got)[:400]},
                      {"content": repr(exp)[:400], "values_of_cell": ref[idx][2]},
-                     explained_by=_explain(case, outs, n_cmp),
-                     border_value_in_flow=_has_border(case))
+                     explained_by="not-examined" if (pre or touch) else _explain(case, outs, n_cmp),
+                     border_value_in_flow=False if (pre or touch) else _has_border(case))
                 bad = True
                 break
         if bad:
@@ -322,12 +460,17 @@ def check_sib(res, case, ref=None):
         # Variable object may serve another SplitIntoBins or another flow)
         viol("sib-context", "argument-variable-changed", {"var_context_after": repr(after)[:400]},
              {"var_context": before}, ctx_mode=case["mode"], typed_variable="type" in before)
+    # (in the law "sib" proper the object is compared with its twin for flows up to TWIN_MAX_LEN values)
+    tproblem = _template_problem(case) if (pre or touch or len(case["flow"]) <= TWIN_MAX_LEN) else None
+    if tproblem is not None:
+        viol("sib-template", "analysis-object-changed-by-SplitIntoBins", tproblem[0], tproblem[1])
     if term != "end":
         res.count("sib_ended_by_exception")
     res.count("sib_cases")
     res.count("histograms_compared", n_cmp)
     res.maximum("results_per_cell", n_max)
-    res.case(nontrivial=nontrivial, outcome=("sib", case["an"], tuple(summary), len(outs), term))
+    res.case(nontrivial=nontrivial, outcome=("sib", case["an"], tuple(summary), len(outs), term, pre,
+                                             tuple(touch)))
     return outs
 
 
@@ -687,6 +830,10 @@ def run_shard(p, tier):
                         check_map(res, desc, seqname, drop)
                 res.sample({"law": "map", "input": desc, "seq": "running", "drop": True}, 2)
         return res
+    if p["kind"] == "template":
+        for part in p["parts"]:
+            _run_template_part(res, p["an"], part)
+        return res
     edges = p["edges"]
     pool = M.arg_pool(edges)
     for n in p["lens"]:
@@ -704,6 +851,29 @@ def run_shard(p, tier):
     return res
 
 
+def _run_template_part(res, an, part):
+    edges = part["edges"]
+    pool = M.arg_pool(edges)
+    for n in part["lens"]:
+        histories = _histories(n)
+        for flow in itertools.product(pool, repeat=n):
+            flow = list(flow)
+            for var in part["vars"]:
+                for mode in part["modes"]:
+                    for pre in TEMPLATE_PRE:
+                        # what its owner does with the object after SplitIntoBins was constructed is
+                        # irrelevant to the reference
+                        ref = M.reference_cells(edges, an, var, mode, flow, pre=pre)
+                        for h_pre, touch in histories:
+                            if h_pre != pre:
+                                continue
+                            case = {"law": "sib", "edges": edges, "an": an, "var": var, "mode": mode,
+                                    "flow": flow, "template": {"pre": pre, "touch": touch}}
+                            check_sib(res, case, ref=ref)
+            if n >= 1:
+                res.sample(case, 3)
+
+
 def replay(case):
     res = Result()
     law = case.get("law")
@@ -719,14 +889,22 @@ def replay(case):
 
 
 LEVEL_TEXT = ("bounded exhaustive exploration: every flow up to the stated length over a pool of arguments "
-              "inside, on the border of and outside 1- and 2-dimensional edges, for 12 inner analyses "
+              "inside, on the border of and outside 1- and 2-dimensional edges, for 13 inner analyses "
               "(bare accumulators, pre/post elements, context-mutating elements, several results per "
-              "cell, unequal numbers of results, cells that raise), 5 argument variables and 3 context "
-              "modes is executed on the real SplitIntoBins and compared cell by cell with independently "
-              "filled private copies; IterateBins and MapBins are executed on the yielded and on "
-              "hand-made histograms and compared with a direct per-cell reference")
+              "cell, unequal numbers of results, cells that raise), 5 argument variables and 6 context "
+              "modes (no context, plain context, a context.variable of another / the same type as the "
+              "argument variable / already composed / untyped) is executed on the real SplitIntoBins and "
+              "compared cell by cell with independently filled private copies; the same for every "
+              "history of the analysis object itself (holding a value when handed over, filled by its "
+              "owner at every subset of the points between construction, the fills and compute), with "
+              "the object compared against a twin that never met a SplitIntoBins; IterateBins and "
+              "MapBins are executed on the yielded and on hand-made histograms and compared with a "
+              "direct per-cell reference")
 LEVEL_NOTE = ("holds for the enumerated alphabet only; flows longer than the bound, 3-dimensional edges, "
-              "values sharing one context object, Compose argument variables, repeated compute() and "
+              "values sharing one context object, Compose argument variables, repeated compute(), "
+              "analysis / edges / variable objects edited (other than the analysis being filled) after "
+              "construction and "
               "MapBins over list-valued cells are not covered; MapBins' output context is not judged")
-TECHNIQUE = ("exhaustive enumeration of flows over an equivalence-class pool on the real code against a "
-             "bisect-and-private-copy reference model")
+TECHNIQUE = ("exhaustive enumeration of flows over an equivalence-class pool (and of the histories of the "
+             "analysis object around them) on the real code against a bisect-and-private-copy reference "
+             "model; differential twin for the analysis object")
